@@ -208,12 +208,23 @@ def check(F, rep, tier):
                     for a in mir.rv_at(fn, *o.data)[2]: out |= base_call(fn, a, depth + 1)
             return out
         walked = base_call(topo, ["cp", [0]])
+        push_sites = []
+        if not walked:
+            # loop form: `for line in output.lines() { if .. { result.push(hash) } }` - what the pushed elements derive from
+            ret_locals = {o.data if o.kind == "local" else None for o in mir.trace_place(topo, [0], transparent=())}
+            for bi, t in topo.calls():
+                if (mir.callee(t) or "").endswith("Vec::<T, A>::push"):
+                    dd = mir.deep_origins(topo, t[2][1], stop=())
+                    hit = {int(d) for k, d in dd if k == "call" and d.isdigit() and int(d) in calls}
+                    if hit: walked |= hit; push_sites.append(bi)
         if len(calls) == 2 and walked == {calls[0]}:
             a0 = [x for x in argv_of(F, topo, topo.blocks[calls[0]]["t"]) if isinstance(x, str)]
             if "HEAD" in a0 and "rev-list" in a0: rep.ok("R02.5", "the walked list is the output of `rev-list ... HEAD` (ancestors of HEAD only)", nontrivial_key="walk")
             else: rep.bad("R02.5", "walk-source", "the commit list walked by the tag search comes from `git %s`, not from rev-list HEAD" % a0, topo.where())
         else: rep.bad("R02.5", "walk-source", "the commit list walked by the tag search is not (only) the rev-list HEAD output (sources: blocks %s of %s)" % (sorted(walked), calls), topo.where())
         flt = [c for c in F.children(topo.path) if any((mir.callee(t) or "").endswith("HashSet::<T, S, A>::contains") for bi, t in c.calls())]
+        if not flt and push_sites:
+            flt = [bi for bi in push_sites if any(d[0] == "call" and (d[1] or "").endswith("HashSet::<T, S, A>::contains") and pol is True for d, pol, dd in mir.guards_of(topo, bi))]
         if flt: rep.ok("R02.5", "walk restricted to commits in the tagged set (HashSet::contains)", nontrivial_key="member")
         else: rep.bad("R02.5", "no-membership-filter", "the walk is not restricted to tagged commits", topo.where())
     lt = F.fn(G + "get_latest_tag")
